@@ -1106,8 +1106,9 @@ func runOnce(c Case) ([]vk.Violation, map[string]bool) {
 		classes["collect_succeeded_after_shutdown"] = true
 	}
 	if len(errs.Errors()) > 0 {
+		// e.g. ErrReaderNotRegistered: a 1 ms ticker of a PeriodicReader may fire
+		// before NewMeterProvider has registered the reader; nothing is recorded yet.
 		classes["otel_error_handler_called"] = true
-		classes["DEBUGERR:"+errs.Errors()[0].Error()] = true
 	}
 	for _, e := range exps {
 		if e != nil && e.overlap.Load() > 0 {
